@@ -84,6 +84,22 @@ def gen_large_cases(rnd, n):
     return cases
 
 
+def gen_number_cases(rnd, n):
+    """DISTINCT / DISTINCT COUNT over NUMBER cells whose host hashes collide (CPython: hash(-1) == hash(-2), hash(2**61 - 1) == hash(0)):
+    records are identified by their values, never by a digest of them"""
+    cases = []
+    vals = [-1, -2, 0, 2 ** 61 - 1, 5, -1, -2, 2 ** 61 - 1]
+    for _ in range(n):
+        A = [[qgen.num(rnd.choice(vals)), rnd.choice(['x', 'y'])] for _r in range(rnd.randint(2, 7))]
+        q = {'items': [{'e': ['a', 0]}] + ([{'e': ['a', 1]}] if rnd.random() < 0.4 else []), 'distinct': rnd.choice(['yes', 'yes', 'count'])}
+        if rnd.random() < 0.4:
+            q['top'] = rnd.randint(1, 4)
+        if rnd.random() < 0.3:
+            q['order'] = [['a', 1]]
+        cases.append({'q': q, 'A': A, 'B': None})
+    return cases
+
+
 def impl_rows(case):
     """run the real engine in-process through the driver protocol (one line) and return parsed result"""
     import common
@@ -99,6 +115,8 @@ def run(res, tier, seed):
     large = gen_large_cases(random.Random(seed * 31 + 77), 8 if tier == 'quick' else 80)
     res.count('large_tables(>1000 records beyond the bound)', len(large))
     cases = large + cases
+    nums = gen_number_cases(random.Random(seed * 7 + 5), 300 if tier == 'quick' else 5000)     # Python only: 2**61 - 1 is not a JavaScript number
+    res.count('number_cells_with_colliding_hashes', len(nums))
     for c in cases:
         q = c['q']
         if c['A'] and (q.get('order') or q.get('distinct', 'no') != 'no' or q.get('top') is not None):
@@ -107,6 +125,7 @@ def run(res, tier, seed):
         res.sample({'query': qgen.render_query(c['q'], 'py'), 'A': c['A'], 'B': c['B']})
     engine_corr.run_cases(res, 'C02', cases, 'py', rnd=random.Random(seed + 6))
     engine_corr.js_leg(res, 'C02', cases, rnd=random.Random(seed + 106))
+    engine_corr.run_cases(res, 'C02', nums, 'py', rnd=random.Random(seed + 206))
     # metamorphic oracle on the implementation alone: bound = prefix, DESC = reverse
     import common
     import copy
